@@ -3,7 +3,8 @@ import fractions
 import itertools
 
 from mc import kernel
-from props.corolib import CoroDriver, script_from_yields, RET
+from props.corolib import (CoroDriver, script_from_yields, RET,
+                           wait_order_cases, run_wait_order_case)
 
 RULE = ('E1 breadth-first search to fixpoint (scripts are finite, every '
         'branch ends in quiescence) on a real CoroutineProcessor: start of a '
@@ -90,6 +91,11 @@ def run(tier, rep):
         'a coroutine started from inside a body may run zero times or once '
         'in that same frame; order among coroutines woken together is free',
         'bodies that raise and negative dt are outside the alphabet',
+        'part wait-orders (E3): up to 6 (quick: 4, permutations to 6) '
+        'coroutines each asking for one wait (odd ones for a second one), '
+        'every assignment of waits from the menu, started together or one '
+        'per frame, process(1) until all ended: the wait heap in every '
+        'shape it can take with that many sleepers',
         'the timing-kill part kills and restarts sleepers from outside so '
         'that the wake-up claim is also checked "whatever other coroutines '
         'are waiting for" when the wait heap is edited',
@@ -98,9 +104,35 @@ def run(tier, rep):
                      inbody_spawn=1, order_checked=1)
     for name, (driver, kw) in drivers(tier).items():
         kernel.explore(driver, rep, part=name, params=driver.params(), **kw)
+    kernel.enumerate_cases(run_wait_order_case, wait_orders(tier), rep,
+                           'wait-orders', params=WAIT_ORDER_PARAMS[tier])
+
+
+WAIT_ORDER_PARAMS = {
+    'quick': dict(menu=(-1, 1, 2, 3, 4), max_sleepers=4,
+                  permutations_of=(5, 6)),
+    'thorough': dict(menu=(1, 2, 3, 4, 5, 6), max_sleepers=6,
+                     permutations_of=(7,), menu2=(-1, 0, 1, 2, 3),
+                     max_sleepers2=5),
+}
+
+
+def wait_orders(tier):
+    """E3: n coroutines each asking for one wait (odd ones for a second
+    one), every assignment of waits: the wait heap in every shape."""
+    p = WAIT_ORDER_PARAMS[tier]
+    cases = wait_order_cases(p['menu'], p['max_sleepers'],
+                             perm_n=p['permutations_of'])
+    if 'menu2' in p:
+        have = set(cases)
+        cases += [c for c in wait_order_cases(p['menu2'], p['max_sleepers2'])
+                  if c not in have]
+    return cases
 
 
 def replay(rec):
+    if rec['part'] == 'wait-orders':
+        return run_wait_order_case(kernel.totuple(rec['case']))
     for tier in ('thorough', 'quick'):
         ds = drivers(tier)
         if rec['part'] in ds:
